@@ -387,7 +387,7 @@ func checkR02a(p *Prog, r *Report) {
 			if _, ok := r02aTypeInfoFields[full]; ok && u.typeInfo {
 				continue
 			}
-			if _, ok := r02aExempt[g.f.Name()+"|"+full]; ok {
+			if _, ok := exemptLookup(c.p, r02aExempt, g.f, func(f *ssa.Function) string { return f.Name() }, full); ok {
 				continue
 			}
 			if _, ok := r02aExempt["*|"+full]; ok {
